@@ -264,30 +264,32 @@ def popConn (s : St) : Option (ConnTask × List ConnTask) :=
   | [] => none
   | c :: r => if c.firstNo ≠ s.prev.no + 1 then none else some (c, r)
 
+/-- First part of `getNextBlockToConnect`: step to the next block of the current request; the
+request is finished (nil) when its blocks are used up. -/
+def advanceCur : Option ConnTask → Option ConnTask
+  | none => none
+  | some c => if c.cur + 1 ≥ c.blocks.length then none else some { c with cur := c.cur + 1 }
+
+/-- Second part: the request the next block comes from — the current one if it has a block left,
+otherwise the head of the queue if `popFromConnQueue` releases it. -/
+def pickConn (s : St) : Option (St × ConnTask) :=
+  match advanceCur s.curConn with
+  | some c => some ({ s with curConn := some c }, c)
+  | none =>
+    match popConn s with
+    | none => none
+    | some (c, q) => some ({ s with connQ := q, curConn := some c }, c)
+
 /-- `getNextBlockToConnect` followed by `connectBlock` of its result. -/
 def connectNext (s : St) : Except Err (St × List Out) :=
   if s.curBlock.isSome then .ok (s, [])
   else
-    -- request next block of current Request
-    let cc : Option ConnTask :=
-      match s.curConn with
-      | none => none
-      | some c => if c.cur + 1 ≥ c.blocks.length then none else some { c with cur := c.cur + 1 }
-    let s := { s with curConn := cc }
-    -- pop from pending request
-    let r : Option (St × ConnTask) :=
-      match cc with
-      | some c => some (s, c)
-      | none =>
-        match popConn s with
-        | none => none
-        | some (c, q) => some ({ s with connQ := q, curConn := some c }, c)
-    match r with
-    | none => .ok (s, [])
-    | some (s, c) =>
+    match pickConn s with
+    | none => .ok ({ s with curConn := none }, [])
+    | some (s1, c) =>
       match c.blocks[c.cur]? with
       | none => .error .panic
-      | some b => .ok ({ s with curBlock := some b }, [.addBlock b])
+      | some b => .ok ({ s1 with curBlock := some b }, [.addBlock b])
 
 /-- `isValidResponse` on a `GetBlockChunksRsp`: error flag, emptiness, hash linkage inside the chunk. -/
 def linked : List Blk → Bool
